@@ -237,7 +237,9 @@ func describe(c Case) string {
 
 // ---------------------------------------------------------------------------
 
-var names = []string{"Foo", "Foo/size=4k", "Foo/size=4k/kind=a-8", "Bar-16", "Bar/gomaxprocs=2", "X/a=/b=1", "é/k=v", "Foo/size=1M-4", "Foo-9", "Foo/size=4k-192", "Bar/kind=big-endian/size=9-96", "Foo/gomaxprocs=2-8"}
+var names = []string{"Foo", "Foo/size=4k", "Foo/size=4k/kind=a-8", "Bar-16", "Bar/gomaxprocs=2", "X/a=/b=1", "é/k=v", "Foo/size=1M-4", "Foo-9", "Foo/size=4k-192", "Bar/kind=big-endian/size=9-96", "Foo/gomaxprocs=2-8",
+	// empty base name (sub-benchmarks of a function called just "Benchmark"), values containing '='
+	"/size=4k-8", "/kind=a", "/", "Foo/size=x=1/kind=a=b-4"}
 var cfgKeys = []string{"goos", "pkg", "a", ".file", "note"}
 var cfgVals = []string{"linux", "darwin", "x y", "1", "p/q", "é", "-v", "*", "a:b", "(x)", "AND"}
 var safeRegexps = []string{"^F", "oo$", "4k|1M", "^$", ".", "[a-f]+", "^(linux|darwin)$", "s.c", "B", "^[0-9]+$", "x y", "^ns", "^MB", "ns.op$", "^sec", "^9", "9"}
